@@ -12,3 +12,5 @@ import SvModel.Spec.L0
 import SvModel.Api
 import SvModel.Proofs.Examples
 import SvModel.Properties.Core
+import SvModel.Properties.C19
+import SvModel.Properties.C19
